@@ -619,20 +619,38 @@ Proof.
     rewrite (Hother j Hne) in Gm. rewrite (supers_ready_same w w' _ R Hsame). apply (HF m j cm); [split; assumption | assumption].
 Qed.
 
+Lemma fold_merge_good : forall l w, Inv w -> all_registered w l -> (forall id, In id l -> readyb w id = true) ->
+  Inv (fold_left (fun w id => fst (merge w id)) l w) /\ ext w (fold_left (fun w id => fst (merge w id)) l w).
+Proof.
+  induction l as [|id r IH]; intros w HI Hreg Hrd; simpl.
+  - split; [assumption | apply ext_refl].
+  - destruct (Hreg id (or_introl eq_refl)) as [m [c Hr]].
+    assert (good w m c) as Hg.
+    { pose proof (Hrd id (or_introl eq_refl)) as R. apply readyb_true in R. destruct R as [c' [G' P']].
+      destruct Hr as [L G]. rewrite G in G'. inversion G'; subst c'.
+      destruct HI as [[_ HJ] _]. destruct (HJ m id c (conj L G)) as [_ H]. destruct (H (fun x => x)) as [Hg|[Hb _]]; [assumption | contradiction]. }
+    assert (readyb w id = true) as Rid by (apply Hrd; left; reflexivity).
+    destruct (Inv_merge_good w id m c HI Hr Hg) as [w' [M [HI' E]]]. rewrite M. simpl.
+    pose proof (merge_ready_same _ _ _ M Rid) as Hsame.
+    destruct (IH w' HI') as [A B].
+    + eapply ext_registered; [exact E|]. intros x Hx. apply Hreg. right. assumption.
+    + intros x Hx. rewrite Hsame. apply Hrd. right. assumption.
+    + split; [assumption | eapply ext_trans; eassumption].
+Qed.
+
+Lemma stale_order_In : forall w n corder id, In id (stale_order w n corder) <-> In id corder /\ inherits w id n = true.
+Proof. intros w n corder id. unfold stale_order. rewrite sort_by_In. apply (filter_In (fun id => inherits w id n)). Qed.
+
 Lemma class_changed_A : forall n corder w, Inv w -> all_registered w corder ->
   Inv (class_changed w n corder) /\ ext w (class_changed w n corder).
 Proof.
-  intros n. unfold class_changed. induction corder as [|id r IH]; intros w HI Hreg; simpl.
-  - split; [assumption | apply ext_refl].
-  - destruct (inherits w id n) eqn:Hinh.
-    + destruct (Hreg id (or_introl eq_refl)) as [m [c Hr]].
-      assert (good w m c) as Hg.
-      { destruct HI as [[_ HJ] _]. destruct (HJ m id c Hr) as [_ H]. destruct (H (fun x => x)) as [Hg|[_ Hb]]; [assumption|].
-        unfold inherits in Hinh. rewrite (proj2 Hr) in Hinh. rewrite Hb in Hinh. discriminate. }
-      destruct (Inv_merge_good w id m c HI Hr Hg) as [w' [M [HI' E]]]. rewrite M. simpl.
-      destruct (IH w' HI') as [A B]; [eapply ext_registered; [exact E|]; intros x Hx; apply Hreg; right; assumption|].
-      split; [assumption | eapply ext_trans; eassumption].
-    + apply IH; [assumption|]. intros x Hx. apply Hreg. right. assumption.
+  intros n corder w HI Hreg. unfold class_changed. apply fold_merge_good; [assumption| |].
+  - intros id Hi. apply stale_order_In in Hi. apply Hreg. apply Hi.
+  - intros id Hi. apply stale_order_In in Hi. destruct Hi as [Hi Hinh].
+    destruct (Hreg id Hi) as [m [c Hr]]. apply readyb_true. exists c. split; [apply Hr|].
+    destruct HI as [[_ HJ] _]. destruct (HJ m id c Hr) as [_ H]. destruct (H (fun x => x)) as [Hg|[_ Hb]].
+    + eapply good_ready; eassumption.
+    + unfold inherits in Hinh. rewrite (proj2 Hr), Hb in Hinh. discriminate.
 Qed.
 
 (* ---- DefStandardClass up to RegisterClass ------------------------------------------------------- *)
@@ -907,6 +925,70 @@ Proof.
       right. exists sid. split; [reflexivity|]. unfold readyb. rewrite (get_wr_old w n supers slots sid (old_id_lt w HI s sid Ls)). exact Hf.
 Qed.
 
+(* the new object does not inherit n, and among the classes that do, a direct superclass has the shorter list *)
+Lemma phase1_In : forall rg hp supers acc res, phase1 rg hp supers acc = Some res ->
+  forall p, In p res -> In p acc \/ (In (snd p) supers /\ lookup rg (snd p) = Some (fst p)).
+Proof.
+  induction supers as [|s r IH]; intros acc res H p Hp; simpl in H.
+  - inversion H; subst. auto.
+  - destruct (lookup rg s) as [id|] eqn:L; [|discriminate].
+    destruct (nth_error hp id) as [sc|]; [|discriminate].
+    destruct (co_prec sc); [discriminate|].
+    destruct (inh_has acc s).
+    + destruct (IH _ _ H p Hp) as [A|[A B]]; [auto | right; split; [right; assumption | assumption]].
+    + destruct (IH _ _ H p Hp) as [A|[A B]].
+      * apply in_app_or in A. destruct A as [A|[A|[]]]; [auto|]. subst p. right. simpl. auto.
+      * right. split; [right; assumption | assumption].
+Qed.
+Lemma new_obj_not_stale : forall w n supers slots, Inv w ->
+  (forall s sid, In s supers -> lookup (reg w) s = Some sid -> s <> n /\ ~ In sid (sub_ids w n)) ->
+  inherits (defclass_reg w n supers slots) (length (heap w)) n = false.
+Proof.
+  intros w n supers slots HI G1.
+  destruct (defclass_reg_shape w n supers slots) as [_ [_ [newc [Hh [_ [_ [_ Hcase]]]]]]].
+  unfold inherits, get. rewrite Hh, nth_error_app_last.
+  set (hp2 := heap w ++ [new0 n supers slots]) in *.
+  destruct (phase1 (reg w) hp2 supers []) as [ds|] eqn:P; subst newc; [|reflexivity].
+  simpl. rewrite inh_has_memb. apply memb_false. intro Hin. apply in_map_iff in Hin. destruct Hin as [[i x] [Hx Hin]]. simpl in Hx. subst x.
+  apply phase2_In in Hin. destruct Hin as [Hin|[[di dm] [Hd Hin]]].
+  - destruct (phase1_In _ _ _ _ _ P _ Hin) as [[]|[A B]]. simpl in A, B. destruct (G1 n i A B) as [Hc _]. apply Hc. reflexivity.
+  - destruct (phase1_In _ _ _ _ _ P _ Hd) as [[]|[A B]]. simpl in A, B. destruct (G1 dm di A B) as [_ Hns]. apply Hns.
+    pose proof (old_id_lt w HI dm di B) as Hlt.
+    unfold inh_of in Hin. simpl in Hin. unfold hp2 in Hin. rewrite nth_error_app1 in Hin by assumption.
+    destruct (nth_error (heap w) di) as [sc|] eqn:G; [|contradiction].
+    apply sub_ids_In. split.
+    + unfold reg_ids. apply in_map_iff. exists (dm, di). split; [reflexivity | apply lookup_In; assumption].
+    + unfold inherits, get. rewrite G. rewrite inh_has_memb. apply memb_In. apply in_map_iff. exists (i, n). auto.
+Qed.
+Lemma reg_B_len : forall w n supers slots, Inv w ->
+  (forall s sid, In s supers -> lookup (reg w) s = Some sid -> s <> n /\ ~ In sid (sub_ids w n)) ->
+  forall id m c, In id (sub_ids (defclass_reg w n supers slots) n) -> registered (defclass_reg w n supers slots) m id c ->
+    forall s did, In s (co_supers c) -> lookup (reg (defclass_reg w n supers slots)) s = Some did ->
+      In did (sub_ids (defclass_reg w n supers slots) n) ->
+      inh_len (defclass_reg w n supers slots) did < inh_len (defclass_reg w n supers slots) id.
+Proof.
+  intros w n supers slots HI G1 id m c Hid Hr s did Hs Ld Hdid.
+  pose proof (new_obj_not_stale w n supers slots HI G1) as Hnew.
+  apply sub_ids_In in Hid. destruct Hid as [_ Hid]. apply sub_ids_In in Hdid. destruct Hdid as [_ Hdid].
+  destruct (registered_wr w n supers slots HI m id c Hr) as [[-> ->]|[Hne Hrw]]; [congruence|].
+  destruct (Nat.eq_dec s n) as [->|Hsn].
+  - rewrite (reg_wr_same w n supers slots) in Ld. inversion Ld; subst did. congruence.
+  - rewrite (reg_wr_other w n supers slots s Hsn) in Ld.
+    pose proof (old_id_lt w HI m id (proj1 Hrw)) as Hlt1. pose proof (old_id_lt w HI s did Ld) as Hlt2.
+    assert (good w m c) as Hg.
+    { pose proof HI as [[_ HJ] _]. destruct (HJ m id c Hrw) as [_ H]. destruct (H (fun x => x)) as [Hg|[_ Hb]]; [assumption|].
+      unfold inherits in Hid. rewrite (get_wr_old w n supers slots id Hlt1), (proj2 Hrw), Hb in Hid. discriminate. }
+    destruct (good_supers_good w m id c HI Hrw Hg s Hs) as [sid [sc [Hrs Hgs]]].
+    assert (sid = did) by (destruct Hrs as [L _]; congruence). subst sid.
+    unfold inh_len. rewrite (get_wr_old w n supers slots id Hlt1), (get_wr_old w n supers slots did Hlt2).
+    rewrite (proj2 Hrw), (proj2 Hrs).
+    destruct Hg as [[f Hf] _]. destruct Hgs as [[fs Hfs] _].
+    destruct f as [|f]; [discriminate|].
+    destruct (lin_super_shorter _ _ _ _ _ s Hf (registered_table _ _ _ _ Hrw) Hs) as [ls [Hls Hlen]].
+    assert (ls = map snd (co_inherit sc)) by (eapply lin_det; eassumption). subst ls.
+    rewrite !map_length in Hlen. assumption.
+Qed.
+
 (* makeClassesReady does nothing when no class that is not ready has all its supers ready *)
 Lemma ready_pass_noop : forall l w,
   (forall id, In id l -> readyb w id = false -> exists c, get w id = Some c /\ co_inherit c = [] /\ supers_ready w (co_supers c) = false) ->
@@ -943,6 +1025,18 @@ Proof.
   exists c'. split; [split; [rewrite R; assumption | assumption]|]. split; assumption.
 Qed.
 
+(* a list of classes to merge again in which every direct super of a class is registered, ready and either does
+   not inherit n or comes earlier *)
+Fixpoint topo (w : world) (n : nat) (done l : list nat) : Prop :=
+  match l with
+  | [] => True
+  | id :: r =>
+      (exists c, get w id = Some c /\
+         forall d, In d (co_supers c) -> exists did, lookup (reg w) d = Some did /\ readyb w did = true /\
+                                                    (inherits w did n = false \/ In did done)) /\
+      topo w n (id :: done) r
+  end.
+
 Section CCB.
   Variables (w0 : world) (n : nat).
   Let subs := sub_ids w0 n.
@@ -952,98 +1046,115 @@ Section CCB.
     (forall j, readyb wk j = readyb w0 j).
   Hypothesis HJ0 : JX (fun j => In j subs) w0.
 
-  Lemma ccB_fold : forall r wk done, ccI wk done -> topo_ok w0 n done r = true ->
-    (forall id, In id r -> In id (reg_ids w0)) ->
+  Lemma ccB_fold : forall r wk done, ccI wk done -> topo w0 n done r ->
+    (forall id, In id r -> In id subs) ->
     exists done', (forall x, In x done' <-> In x done \/ In x r) /\
-                  ccI (fold_left (fun w id => if inherits w id n then fst (merge w id) else w) r wk) done'.
+                  ccI (fold_left (fun w id => fst (merge w id)) r wk) done'.
   Proof.
     induction r as [|id r IH]; intros wk done HIk Htopo Hreg; simpl.
     - exists done. split; [intros; tauto | assumption].
-    - simpl in Htopo. apply andb_true_iff in Htopo. destruct Htopo as [Hid Htopo].
+    - simpl in Htopo. destruct Htopo as [[c0' [Gc0 Hid]] Htopo].
       destruct HIk as [E [HJ [HF [Hun Hrd]]]].
       pose proof HJ0 as [HWF0 HJ0'].
-      destruct (reg_ids_registered w0 id HWF0 (Hreg id (or_introl eq_refl))) as [m [c0 Hr0]].
+      assert (In id subs) as Hidsubs by (apply Hreg; left; reflexivity).
+      pose proof (proj1 (sub_ids_In _ _ _) Hidsubs) as [Hidreg Hinh0].
+      destruct (reg_ids_registered w0 id HWF0 Hidreg) as [m [c0 Hr0]].
+      assert (c0' = c0) by (destruct Hr0 as [_ G]; congruence). subst c0'.
       destruct (ext_registered1 _ _ _ _ _ E Hr0) as [ck [Hrk [[S1 [S2 S3]] _]]].
       assert (Hnext : forall wk', ccI wk' (id :: done) ->
         exists done', (forall x, In x done' <-> In x done \/ In x (id :: r)) /\
-          ccI (fold_left (fun w id => if inherits w id n then fst (merge w id) else w) r wk') done').
+          ccI (fold_left (fun w id => fst (merge w id)) r wk') done').
       { intros wk' HI'. destruct (IH wk' (id :: done) HI' Htopo) as [done' [Hd HI'']]; [intros x Hx; apply Hreg; right; assumption|].
         exists done'. split; [|assumption]. intros x. rewrite Hd. simpl. tauto. }
-      destruct (inherits wk id n) eqn:Hinh.
-      + (* merged *)
-        assert (inherits w0 id n = true) as Hinh0.
-        { destruct (inherits w0 id n) eqn:E0; [reflexivity|]. exfalso.
-          assert (get wk id = get w0 id) as Hsame.
-          { apply Hun. intros [Hs _]. apply sub_ids_In in Hs. destruct Hs as [_ Hs]. congruence. }
-          unfold inherits in Hinh, E0. rewrite Hsame in Hinh. congruence. }
-        rewrite Hinh0 in Hid. rewrite (proj2 Hr0) in Hid.
-        assert (Hsup : forall s, In s (co_supers ck) -> exists sid sc, registered wk s sid sc /\ good wk s sc).
-        { intros s Hs. rewrite S2 in Hs. rewrite forallb_forall in Hid. specialize (Hid s Hs).
-          destruct (lookup (reg w0) s) as [sid|] eqn:Ls; [|discriminate].
-          apply andb_true_iff in Hid. destruct Hid as [Hr Hord].
-          apply readyb_true in Hr. destruct Hr as [sc0 [Gs0 Ps0]].
-          destruct (ext_registered1 _ _ _ _ _ E (conj Ls Gs0)) as [sc [Hrs [_ Pk]]].
-          exists sid, sc. split; [assumption|].
-          destruct HJ as [_ HJk]. destruct (HJk s sid sc Hrs) as [_ B].
-          assert (~ (In sid subs /\ ~ In sid done)) as Hnx.
-          { intros [Hs1 Hs2]. apply orb_true_iff in Hord. destruct Hord as [Hord|Hord].
-            - apply sub_ids_In in Hs1. destruct Hs1 as [_ Hs1]. rewrite Hs1 in Hord. discriminate.
-            - apply memb_In in Hord. contradiction. }
-          destruct (B Hnx) as [Hg|[Hb _]]; [assumption|]. exfalso. exact (Pk Ps0 Hb). }
-        destruct (merge_good wk m id ck (proj1 HJ) Hrk Hsup) as [w' [c' [M [G' Hg']]]].
-        rewrite M. simpl. apply Hnext.
-        destruct (merge_ext _ _ _ _ M) as [E' Hother].
-        assert (In id subs) as Hidsubs by (apply sub_ids_In; split; [eapply registered_reg_ids; eassumption | assumption]).
-        assert (readyb wk id = true) as Rid.
-        { rewrite Hrd. apply readyb_true. exists c0. split; [apply Hr0|]. destruct (HJ0' m id c0 Hr0) as [A _]. apply A. assumption. }
-        pose proof (merge_ready_same _ _ _ M Rid) as Hsame.
-        pose proof E' as [R' _].
-        split; [eapply ext_trans; eassumption|]. split; [|split; [|split]].
-        * split; [eapply ext_WF; [exact E' | apply HJ]|].
-          intros m' j cj [Lm Gm]. rewrite R' in Lm.
-          destruct (Nat.eq_dec j id) as [->|Hne].
-          -- rewrite G' in Gm. inversion Gm; subst cj.
-             assert (m' = m).
-             { destruct (proj1 HJ) as [_ HW]. destruct (HW m' id Lm) as [x [Gx [Hx _]]]. destruct (HW m id (proj1 Hrk)) as [y [Gy [Hy _]]]. congruence. }
-             subst m'. split; [intros [_ Hc]; exfalso; apply Hc; left; reflexivity | intros _; left; assumption].
-          -- rewrite (Hother j Hne) in Gm. destruct HJ as [_ HJk]. destruct (HJk m' j cj (conj Lm Gm)) as [A B]. split.
-             ++ intros [Hx1 Hx2]. apply A. split; [assumption|]. intro Hc. apply Hx2. right. assumption.
-             ++ intros Hnx. destruct B as [Hg|Hb].
-                ** intros [Hx1 Hx2]. apply Hnx. split; [assumption|]. intros [Hc|Hc]; [congruence | contradiction].
-                ** left. eapply ext_good; eassumption.
-                ** right. assumption.
-        * intros m' j cj [Lm Gm] Hb. rewrite R' in Lm.
-          assert (j <> id) as Hne. { intros ->. rewrite G' in Gm. inversion Gm; subst. exact (good_ready _ _ _ Hg' Hb). }
-          rewrite (Hother j Hne) in Gm. rewrite (supers_ready_same wk w' _ R' Hsame). apply (HF m' j cj); [split; assumption | assumption].
-        * intros j Hj. assert (j <> id) as Hne. { intros ->. apply Hj. split; [assumption | left; reflexivity]. }
-          rewrite (Hother j Hne). apply Hun. intros [H1 H2]. apply Hj. split; [assumption | right; assumption].
-        * intros j. rewrite Hsame. apply Hrd.
-      + (* skipped *)
-        apply Hnext. split; [assumption|]. split; [|split; [assumption|split; [|assumption]]].
-        * apply (JX_iff (fun j => In j subs /\ ~ In j done)); [|assumption].
-          intros j. split.
-          -- intros [H1 H2]. split; [assumption|]. intros [Hc|Hc]; [|contradiction]. subst j.
-             (* id is a stale class that was never merged: it still inherits n *)
-             assert (get wk id = get w0 id) as Hsame by (apply Hun; tauto).
-             apply sub_ids_In in H1. destruct H1 as [_ H1]. unfold inherits in Hinh, H1. rewrite Hsame in Hinh. congruence.
-          -- intros [H1 H2]. split; [assumption|]. intro Hc. apply H2. right. assumption.
-        * intros j Hj. apply Hun. intros [H1 H2]. apply Hj. split; [assumption | right; assumption].
+      assert (Hsup : forall s, In s (co_supers ck) -> exists sid sc, registered wk s sid sc /\ good wk s sc).
+      { intros s Hs. rewrite S2 in Hs. destruct (Hid s Hs) as [sid [Ls [Hr Hord]]].
+        apply readyb_true in Hr. destruct Hr as [sc0 [Gs0 Ps0]].
+        destruct (ext_registered1 _ _ _ _ _ E (conj Ls Gs0)) as [sc [Hrs [_ Pk]]].
+        exists sid, sc. split; [assumption|].
+        destruct HJ as [_ HJk]. destruct (HJk s sid sc Hrs) as [_ B].
+        assert (~ (In sid subs /\ ~ In sid done)) as Hnx.
+        { intros [Hs1 Hs2]. destruct Hord as [Hord|Hord].
+          - apply sub_ids_In in Hs1. destruct Hs1 as [_ Hs1]. rewrite Hs1 in Hord. discriminate.
+          - contradiction. }
+        destruct (B Hnx) as [Hg|[Hb _]]; [assumption|]. exfalso. exact (Pk Ps0 Hb). }
+      destruct (merge_good wk m id ck (proj1 HJ) Hrk Hsup) as [w' [c' [M [G' Hg']]]].
+      rewrite M. simpl. apply Hnext.
+      destruct (merge_ext _ _ _ _ M) as [E' Hother].
+      assert (readyb wk id = true) as Rid.
+      { rewrite Hrd. apply readyb_true. exists c0. split; [apply Hr0|]. destruct (HJ0' m id c0 Hr0) as [A _]. apply A. assumption. }
+      pose proof (merge_ready_same _ _ _ M Rid) as Hsame.
+      pose proof E' as [R' _].
+      split; [eapply ext_trans; eassumption|]. split; [|split; [|split]].
+      * split; [eapply ext_WF; [exact E' | apply HJ]|].
+        intros m' j cj [Lm Gm]. rewrite R' in Lm.
+        destruct (Nat.eq_dec j id) as [->|Hne].
+        -- rewrite G' in Gm. inversion Gm; subst cj.
+           assert (m' = m).
+           { destruct (proj1 HJ) as [_ HW]. destruct (HW m' id Lm) as [x [Gx [Hx _]]]. destruct (HW m id (proj1 Hrk)) as [y [Gy [Hy _]]]. congruence. }
+           subst m'. split; [intros [_ Hc]; exfalso; apply Hc; left; reflexivity | intros _; left; assumption].
+        -- rewrite (Hother j Hne) in Gm. destruct HJ as [_ HJk]. destruct (HJk m' j cj (conj Lm Gm)) as [A B]. split.
+           ++ intros [Hx1 Hx2]. apply A. split; [assumption|]. intro Hc. apply Hx2. right. assumption.
+           ++ intros Hnx. destruct B as [Hg|Hb].
+              ** intros [Hx1 Hx2]. apply Hnx. split; [assumption|]. intros [Hc|Hc]; [congruence | contradiction].
+              ** left. eapply ext_good; eassumption.
+              ** right. assumption.
+      * intros m' j cj [Lm Gm] Hb. rewrite R' in Lm.
+        assert (j <> id) as Hne. { intros ->. rewrite G' in Gm. inversion Gm; subst. exact (good_ready _ _ _ Hg' Hb). }
+        rewrite (Hother j Hne) in Gm. rewrite (supers_ready_same wk w' _ R' Hsame). apply (HF m' j cj); [split; assumption | assumption].
+      * intros j Hj. assert (j <> id) as Hne. { intros ->. apply Hj. split; [assumption | left; reflexivity]. }
+        rewrite (Hother j Hne). apply Hun. intros [H1 H2]. apply Hj. split; [assumption | right; assumption].
+      * intros j. rewrite Hsame. apply Hrd.
+  Qed.
+
+  (* the order classChanged sorts the stale classes into is such a list *)
+  Hypothesis Hlen : forall id m c, In id subs -> registered w0 m id c ->
+    forall s did, In s (co_supers c) -> lookup (reg w0) s = Some did -> In did subs -> inh_len w0 did < inh_len w0 id.
+  Hypothesis Hsr : forall id c, In id subs -> get w0 id = Some c -> supers_ready w0 (co_supers c) = true.
+
+  Lemma topo_of_sorted : forall l done, sortedf (inh_len w0) l -> (forall id, In id l -> In id subs) ->
+    (forall x, In x subs -> In x done \/ In x l) -> topo w0 n done l.
+  Proof.
+    induction l as [|id r IH]; intros done Hs Hsub Hcov; simpl; [exact I|].
+    destruct Hs as [Hmin Hs]. pose proof HJ0 as [HWF0 _].
+    assert (In id subs) as Hidsubs by (apply Hsub; left; reflexivity).
+    pose proof (proj1 (sub_ids_In _ _ _) Hidsubs) as [Hidreg Hinh0].
+    destruct (reg_ids_registered w0 id HWF0 Hidreg) as [m [c Hr]].
+    split.
+    - exists c. split; [apply Hr|]. intros d Hd.
+      pose proof (Hsr id c Hidsubs (proj2 Hr)) as Hready. rewrite supers_ready_true in Hready.
+      destruct (Hready d Hd) as [did [Ld Rd]]. exists did. split; [assumption|]. split; [assumption|].
+      destruct (inherits w0 did n) eqn:Ei; [|left; reflexivity]. right.
+      assert (In did subs) as Hdsubs.
+      { apply sub_ids_In. split; [|assumption]. unfold reg_ids. apply in_map_iff. exists (d, did). split; [reflexivity | apply lookup_In; assumption]. }
+      pose proof (Hlen id m c Hidsubs Hr d did Hd Ld Hdsubs) as Hlt.
+      destruct (Hcov did Hdsubs) as [Hdone|[Heq|Hin]]; [assumption | subst; lia | specialize (Hmin did Hin); lia].
+    - apply IH; [assumption | intros x Hx; apply Hsub; right; assumption|].
+      intros x Hx. destruct (Hcov x Hx) as [H|[H|H]]; [left; right; assumption | left; left; assumption | right; assumption].
   Qed.
 End CCB.
 
 Lemma class_changed_B : forall w n corder, JX (fun j => In j (sub_ids w n)) w -> FF w ->
-  topo_ok w n [] corder = true -> (forall id, In id corder -> In id (reg_ids w)) ->
+  (forall id m c, In id (sub_ids w n) -> registered w m id c ->
+    forall s did, In s (co_supers c) -> lookup (reg w) s = Some did -> In did (sub_ids w n) -> inh_len w did < inh_len w id) ->
+  (forall id c, In id (sub_ids w n) -> get w id = Some c -> supers_ready w (co_supers c) = true) ->
+  (forall id, In id corder -> In id (reg_ids w)) ->
   (forall id, In id (sub_ids w n) -> In id corder) ->
   Inv (class_changed w n corder) /\ ext w (class_changed w n corder).
 Proof.
-  intros w n corder HJ HF Htopo Hreg Hall. unfold class_changed.
-  destruct (ccB_fold w n HJ corder w []) as [done' [Hd [E [HJ' [HF' _]]]]].
+  intros w n corder HJ HF Hlen Hsr Hreg Hall. unfold class_changed.
+  assert (Hsub : forall id, In id (stale_order w n corder) -> In id (sub_ids w n)).
+  { intros id Hi. apply stale_order_In in Hi. apply sub_ids_In. split; [apply Hreg; apply Hi | apply Hi]. }
+  assert (Hcov : forall x, In x (sub_ids w n) -> In x [] \/ In x (stale_order w n corder)).
+  { intros x Hx. right. apply stale_order_In. split; [apply Hall; assumption|]. apply sub_ids_In in Hx. apply Hx. }
+  pose proof (topo_of_sorted w n HJ Hlen Hsr (stale_order w n corder) [] (sort_by_sorted _ _) Hsub Hcov) as Htopo.
+  destruct (ccB_fold w n HJ (stale_order w n corder) w []) as [done' [Hd [E [HJ' [HF' _]]]]].
   - split; [apply ext_refl|]. split; [|split; [assumption|split; [reflexivity|reflexivity]]].
     apply (JX_iff (fun j => In j (sub_ids w n))); [|assumption]. intros j. simpl. tauto.
   - assumption.
   - assumption.
   - split; [|assumption]. split; [|assumption]. apply (JX_iff (fun j => In j (sub_ids w n) /\ ~ In j done')); [|assumption].
-    intros j. unfold NoX. split; [|tauto]. intros [H1 H2]. apply H2. apply Hd. right. apply Hall. assumption.
+    intros j. unfold NoX. split; [|tauto]. intros [H1 H2]. apply H2. apply Hd. right.
+    destruct (Hcov j H1) as [[]|H]. assumption.
 Qed.
 
 (* ---- defclass preserves the invariant inside the guard ------------------------------------------ *)
@@ -1063,7 +1174,7 @@ Lemma g_defclass_parts : forall w n supers slots rorder corder, g_defclass w n s
         let subs := sub_ids w n in
         let bad := n :: flat_map (fun id => match name_of w id with Some m => [m] | None => [] end) subs in
         forallb (fun d => negb (memb d bad)) supers
-        && topo_ok (defclass_pre w n supers slots rorder) n [] corder
+        && stale_supers_ready (defclass_pre w n supers slots rorder) n corder
         && forallb (fun k => negb (memb k bad)) (cache_keys w)
       else true
   end = true.
@@ -1105,9 +1216,12 @@ Proof.
           unfold name_of. destruct HI as [[[_ HW] _] _]. destruct (HW s sid Ls) as [c [Gc [Nc _]]]. rewrite Gc. left. assumption. }
       destruct (reg_B w n supers slots old oc HI A2 (conj Lold Go) Po HG1) as [HJ HF]. fold wr in HJ, HF.
       rewrite (make_ready_noop _ wr rorder HJ HF HR2) in *.
+      assert (HC1 : forall id, In id (sub_ids wr n) -> In id corder) by (intros id Hi; apply memb_In; exact (forallb_In _ _ _ id C1 Hi)).
       apply class_changed_B; try assumption.
+      * apply reg_B_len; assumption.
+      * intros id c Hi Gc. pose proof (forallb_In _ _ _ id Gtopo (HC1 id Hi)) as Hb. cbv beta in Hb.
+        apply sub_ids_In in Hi. destruct Hi as [_ Hi]. rewrite Hi, Gc in Hb. assumption.
       * intros id Hi. apply memb_In. exact (forallb_In _ _ _ id C2 Hi).
-      * intros id Hi. apply memb_In. exact (forallb_In _ _ _ id C1 Hi).
     + apply HcaseA. intros id c [L Gc]. rewrite Lold in L. inversion L; subst id.
       destruct (co_prec c) eqn:E; [reflexivity|]. exfalso.
       assert (readyb w old = true) by (apply readyb_true; exists c; split; [assumption | congruence]). congruence.
